@@ -110,7 +110,7 @@ def run : Handler := fun j => do
   let wf := wellFormed t X m eps
   let treePred := X.map fun x => treePredict t x
   let paths := X.map fun x => pathFrom t x t.n 0
-  let base := [("wf", Json.bool wf), ("tree_pred", jRats treePred), ("paths", jNatss paths),
+  let base := [("wf", Json.bool wf), ("fitted", Json.bool (fitted t X)), ("tree_pred", jRats treePred), ("paths", jNatss paths),
                ("recs_ok", match implRecs with | none => Json.null | some rs => Json.bool (checkRecs t X rs))]
   match fromDecisionTree t X m eps with
   | .error e => pure (Json.mkObj (base ++ [("conv", jErr e)]))
@@ -125,7 +125,7 @@ def run : Handler := fun j => do
     let recs := match traceContext L.lat X m id with
       | .error e => jErr e
       | .ok rs => Json.mkObj [("ok", Json.arr ((sortRecs rs).map jRec).toArray)]
-    -- the two decidable hypotheses of `Fca.C20.dl_predict_eq_tree_partial`, evaluated on this case
+    -- the two decidable trace facts `Fca.C20.dl_predict_eq_tree` proves for well-formed input, re-evaluated here
     let hyps := match traceContext L.lat X m id with
       | .error _ => Json.null
       | .ok rs => Json.mkObj [("keys", Json.bool (traceKeysOK t L.decisions rs)),
